@@ -74,6 +74,17 @@ def gen(rng, mode="mixed"):
     if rng.random() < 0.3:
         iters.append(g.changes(tx, 0))
     g.commit(tx)
+    # an aborted transaction that had created an iterator; the dead iterator is closed during setup, by the
+    # closing actor, at the end, or never
+    dead = None
+    if rng.random() < 0.3:
+        dt = rng.choice(g.tables)
+        tx = g.begin([dt])
+        dead = g.changes(tx, dt)
+        g.abort(tx)
+        if rng.random() < 0.4:
+            g.iterclose(dead)
+            dead = None
     s = g.snap()
     for t in g.tables:
         g.q(g.snap_src(s), t, "id", "all", [], watch=True)
@@ -120,10 +131,17 @@ def gen(rng, mode="mixed"):
                 dict(op="insert", tx=g.ntx, t=newt, obj=simple_obj(g, 2, 7), guard=0, gsym="", w=0),
                 dict(op="commit", tx=g.ntx, snap=g.nsnap)]
         actors.append(dict(name="N", prog=prog))
+    cprog = []
     if iters and rng.random() < 0.5:
         it = iters.pop()
         g.iters[it]["st"] = "closed"
-        actors.append(dict(name="C", prog=[dict(op="iterclose", it=it)]))
+        cprog.append(dict(op="iterclose", it=it))
+    if dead is not None and rng.random() < 0.6:
+        g.iters[dead]["st"] = "closed"
+        cprog.append(dict(op="iterclose", it=dead))
+        rng.shuffle(cprog)
+    if cprog:
+        actors.append(dict(name="C", prog=cprog))
     names = [a["name"] for a in actors] + (["GC"] if use_gc else [])
     # schedule: bursts of one actor, so that it is parked deep inside Commit while others run
     sched = []
@@ -149,7 +167,7 @@ def gen(rng, mode="mixed"):
             g.next(it, src=g.snap_src(s2), take=-1)
             g.grave(d["t"], quiet=False)
     for it, d in g.iters.items():
-        if d["st"] == "open":
+        if d["st"] == "open" or (d["st"] == "dead" and rng.random() < 0.5):
             g.iterclose(it)
     finish = g.ops
     return [dict(op="sched", setup=setup, actors=actors, schedule=sched, finish=finish, gc=use_gc, nilempty=False)]
